@@ -31,6 +31,8 @@ inductive Ev where
   | acq (cls : Nat) (who : Who) (write : Bool)
   | rel (cls : Nat) (who : Who) (write : Bool)
   | deferRel (cls : Nat) (who : Who) (write : Bool)
+  /-- a guarded field of `who` is read / written here; `cls` is the lock class that guards it -/
+  | access (cls : Nat) (who : Who) (write : Bool)
   | deferBlock (body : List Ev)
   | call (fn : Nat) (who : Who)
   | deferCall (fn : Nat) (who : Who)
@@ -80,6 +82,7 @@ def move : Kind → Int → List Step → Kind → Option Int
 
 structure St where
   held : List Lock
+  wheld : List Lock := []   -- the held locks taken in write mode (Lock(), or any sync.Mutex)
   defers : List (List Ev)   -- registered deferred blocks, most recent first
   lastErr : Option Bool := none   -- error result of the most recent package call (none = unknown)
   retErr : Option Bool := none    -- error result this function is returning with
@@ -92,7 +95,7 @@ structure Res where
 def Res.bad : Res := ⟨false, [], []⟩
 
 def addSt (s : St) (l : List St) : List St :=
-  if s.defers.isEmpty && l.any (fun t => t.defers.isEmpty && t.held == s.held && t.lastErr == s.lastErr && t.retErr == s.retErr) then l else s :: l
+  if s.defers.isEmpty && l.any (fun t => t.defers.isEmpty && t.held == s.held && t.wheld == s.wheld && t.lastErr == s.lastErr && t.retErr == s.retErr) then l else s :: l
 
 def mergeSts (a b : List St) : List St := a.foldr addSt b
 
@@ -103,6 +106,7 @@ def noDeep (held : List Lock) : Bool := held.all fun h => h.1 < dirClass
 structure Frame where
   kind : Kind
   depth : Int
+  fn : Nat := 0     -- the function whose body is being executed (for the allow-list of the guarded-field rule)
 
 /-- the table the checker runs on: everything by index (strings are slow in the kernel) -/
 structure Tbl where
@@ -112,6 +116,10 @@ structure Tbl where
   keeps : List Nat
   gives : List Nat
   mustGive : List Nat
+  /-- guarded-field rule on: an `access` needs the guarding lock of the same object held (in write mode for a write),
+  unless (function containing it, lock class, is write) is in `allowUnguarded` -/
+  chkAccess : Bool := false
+  allowUnguarded : List (Nat × Nat × Bool) := []
 
 /-- index of a name -/
 def idxOf (names : List String) (n : String) : Option Nat :=
@@ -126,6 +134,8 @@ def compile (cfg : Config) (facts : List (List Ev)) (recv names classes : List S
   keeps := cfg.keeps.filterMap (idxOf names)
   gives := cfg.gives.filterMap (idxOf names)
   mustGive := cfg.mustGive.filterMap (idxOf names)
+  chkAccess := false
+  allowUnguarded := []
 
 /-- resolve a lock (class, who) to a ranked lock; `none` = not allowed here -/
 def resolve (t : Tbl) (fr : Frame) (held : List Lock) (cls : Nat) (who : Who) : Option Lock :=
@@ -162,11 +172,11 @@ def runDefers (t : Tbl) : Nat → Frame → List (Nat × List (Nat × Int)) → 
     match st.defers with
     | [] => ⟨true, [st], []⟩
     | d :: ds =>
-      let r := execList t fuel fr stack d { held := st.held, defers := [], retErr := st.retErr }
+      let r := execList t fuel fr stack d { held := st.held, wheld := st.wheld, defers := [], retErr := st.retErr }
       if !r.ok then Res.bad else
       -- a `ret` inside a deferred closure just ends that closure
       (mergeSts r.cont r.rets).foldl
-        (fun (acc : Res) c => acc.merge (runDefers t fuel fr stack { held := c.held, defers := ds, retErr := st.retErr })) (⟨true, [], []⟩ : Res)
+        (fun (acc : Res) c => acc.merge (runDefers t fuel fr stack { held := c.held, wheld := c.wheld, defers := ds, retErr := st.retErr })) (⟨true, [], []⟩ : Res)
 
 /-- call function `fn` positioned at `cfr` from state `st`; the caller continues with the callee's final `held` -/
 def execCall (t : Tbl) : Nat → List (Nat × List (Nat × Int)) → Nat → Frame → St → Res
@@ -175,7 +185,7 @@ def execCall (t : Tbl) : Nat → List (Nat × List (Nat × Int)) → Nat → Fra
     let key := cutKey fn st.held cfr.depth
     if stack.contains key then ⟨true, [{ st with lastErr := none }], []⟩ else
     let body := t.facts.getD fn [.unknown]
-    let r := execList t fuel cfr (key :: stack) body { held := st.held, defers := [] }
+    let r := execList t fuel cfr (key :: stack) body { held := st.held, wheld := st.wheld, defers := [] }
     if !r.ok then Res.bad else
     let fin : Res := (mergeSts r.cont r.rets).foldl (fun (acc : Res) c => acc.merge (runDefers t fuel cfr (key :: stack) c)) (⟨true, [], []⟩ : Res)
     if !fin.ok then Res.bad else
@@ -189,20 +199,27 @@ def execCall (t : Tbl) : Nat → List (Nat × List (Nat × Int)) → Nat → Fra
       (t.keeps.contains fn && c.held.length == st.held.length + 1 && c.held.tail == st.held && (c.held.headD (9, 0)).1 == 0) ||
       (t.gives.contains fn && c.held.length + 1 == st.held.length && c.held.all (st.held.contains ·))
     if !okDelta then Res.bad else
-    ⟨true, fin.cont.foldr (fun c acc => addSt { held := c.held, defers := st.defers, lastErr := c.retErr, retErr := st.retErr } acc) [], []⟩
+    ⟨true, fin.cont.foldr (fun c acc => addSt { held := c.held, wheld := c.wheld, defers := st.defers, lastErr := c.retErr, retErr := st.retErr } acc) [], []⟩
 
 def execEv (t : Tbl) : Nat → Frame → List (Nat × List (Nat × Int)) → Ev → St → Res
   | 0, _, _, _, _ => Res.bad
   | fuel + 1, fr, stack, ev, st =>
     match ev with
-    | .acq cls who _ =>
+    | .acq cls who w =>
       match resolve t fr st.held cls who with
       | none => Res.bad
-      | some l => if st.held.all (lockLt · l) then ⟨true, [{ st with held := l :: st.held }], []⟩ else Res.bad
+      | some l => if st.held.all (lockLt · l) then
+          ⟨true, [{ st with held := l :: st.held, wheld := if w then l :: st.wheld else st.wheld }], []⟩ else Res.bad
     | .rel cls who _ =>
       match resolve t fr [] cls who with
       | none => Res.bad
-      | some l => if st.held.contains l then ⟨true, [{ st with held := st.held.erase l }], []⟩ else Res.bad
+      | some l => if st.held.contains l then ⟨true, [{ st with held := st.held.erase l, wheld := st.wheld.erase l }], []⟩ else Res.bad
+    | .access cls who w =>
+      if !t.chkAccess then ⟨true, [st], []⟩ else
+      if t.allowUnguarded.contains (fr.fn, cls, w) then ⟨true, [st], []⟩ else
+      match resolve t fr [] cls who with
+      | none => Res.bad
+      | some l => if (if w then st.wheld.contains l else st.held.contains l) then ⟨true, [st], []⟩ else Res.bad
     | .deferRel cls who w => ⟨true, [{ st with defers := [.rel cls who w] :: st.defers }], []⟩
     | .deferBlock body => ⟨true, [{ st with defers := body :: st.defers }], []⟩
     | .deferCall fn who => ⟨true, [{ st with defers := [.call fn who] :: st.defers }], []⟩
@@ -210,21 +227,21 @@ def execEv (t : Tbl) : Nat → Frame → List (Nat × List (Nat × Int)) → Ev 
       let ck := t.kinds.getD fn .other
       match who with
       | some path =>
-        if ck == .other then (if noDeep st.held then execCall t fuel stack fn ⟨ck, 0⟩ st else
+        if ck == .other then (if noDeep st.held then execCall t fuel stack fn ⟨ck, 0, fn⟩ st else
           -- a plain function / unpositioned receiver called under a directory or node lock: tolerated only if it takes no lock
           execCallLockFree t fuel stack fn st)
         else match move fr.kind fr.depth path ck with
-          | some d => execCall t fuel stack fn ⟨ck, d⟩ st
+          | some d => execCall t fuel stack fn ⟨ck, d, fn⟩ st
           | none => Res.bad
       | none =>
-        if noDeep st.held then execCall t fuel stack fn ⟨ck, 0⟩ st else execCallLockFree t fuel stack fn st
+        if noDeep st.held then execCall t fuel stack fn ⟨ck, 0, fn⟩ st else execCallLockFree t fuel stack fn st
     | .spawn _ _ => ⟨true, [st], []⟩
     | .alt bs => bs.foldl (fun (acc : Res) b => acc.merge (execList t fuel fr stack b st)) (⟨true, [], []⟩ : Res)
     | .loop body =>
       let r := execList t fuel fr stack body st
       if r.ok && r.cont.all (fun c => c.held == st.held && c.defers.length == st.defers.length) then ⟨true, [st], r.rets⟩ else Res.bad
     | .closure body =>
-      let r := execList t fuel fr stack body { held := st.held, defers := [] }
+      let r := execList t fuel fr stack body { held := st.held, wheld := st.wheld, defers := [] }
       if r.ok && (r.cont ++ r.rets).all (fun c => c.held == st.held && c.defers.isEmpty) then ⟨true, [st], []⟩ else Res.bad
     | .ifErr a b =>
       match st.lastErr with
@@ -259,12 +276,12 @@ def lockFree (t : Tbl) : Nat → List Nat → List Ev → Bool
       | .alt bs => bs.all fun b => lockFree t fuel seen b
       | .ifErr a b | .ifRetErr a b => lockFree t fuel seen a && lockFree t fuel seen b
       | .loop b | .closure b | .deferBlock b => lockFree t fuel seen b
-      | .spawn .. | .ret | .retErr | .retOk | .callback => true) && lockFree t fuel seen es
+      | .access .. | .spawn .. | .ret | .retErr | .retOk | .callback => true) && lockFree t fuel seen es
 end
 
 /-- check function `fn` entered holding `entry` -/
 def checkFrom (t : Tbl) (fuel : Nat) (entry : List Lock) (fn : Nat) : Bool :=
-  let fr : Frame := ⟨t.kinds.getD fn .other, 0⟩
+  let fr : Frame := ⟨t.kinds.getD fn .other, 0, fn⟩
   (execCall t fuel [] fn fr { held := entry, defers := [] }).ok
 
 end LockFacts
